@@ -39,7 +39,18 @@ def site(fi, node=None):
 
 
 def check(m, run):
-    ag1(m, run)
+    # the dictionary formats of curves, surfaces (with trims of every kind) and volumes are decided by round trips through the real classes
+    # (JR2, JR3); the rules that pair the keys the exporters write with the keys the importers read corroborate for these three pairs
+    from .. import skel_drivers as _sdj
+    n_jr = len(run.obs)
+    try:
+        _sdj.jr2(m, run)
+        _sdj.jr3(m, run)
+    except AnalysisError as ex:
+        run.error(str(ex))
+    jr_ok = len(run.obs) > n_jr and all(o.ok for o in run.obs[n_jr:])
+    with run.corroborating(jr_ok, 'JR2/JR3', rules=(), only=lambda o: o.rule.startswith('AG1') and any(t in o.key for t in ('dict_crv', 'dict_surf', 'dict_vol'))):
+        ag1(m, run)
     # the mesh formats are decided by interpreting the writers in text mode on shapes built by the real classes, checking the text against
     # the documented records and interpreting the readers on that very text (SM2); the rules that read how the writer assembles its
     # records and which fields the reader picks corroborate
@@ -68,8 +79,6 @@ def check(m, run):
     _rs.iv1(m, run, [('NURBS', 'Curve'), ('NURBS', 'Surface'), ('NURBS', 'Volume')], caches_filter=lambda c: c in ("_cache['ctrlpts']", "_cache['weights']"))
     from .. import skel_drivers as _sdt
     _sdt.trm2(m, run)      # every kind of trim a file can carry is accepted by the setter the importers use
-    _sdt.jr2(m, run)       # dictionary (JSON / cfg / yaml) round trip of a rational curve, trimmed surface and volume through the real classes
-    _sdt.jr3(m, run)       # ... and the JSON file functions themselves on single shapes and containers (json modelled as a function on plain data)
 
 
 def aggregate_after_loop(m, run):
@@ -113,6 +122,16 @@ def im1(m, run):
     n = 0
     for key in ('_exchange.import_dict_crv', '_exchange.import_dict_surf', '_exchange.import_dict_vol', '_exchange.import_surf_mesh', '_exchange.import_vol_mesh'):
         fi = m.func(key)
+        seen = run.extra.get('imported_kv_normalize', {})
+        if key in seen:
+            # decided on the shape the importer actually returned when JR2 / SM2 interpreted it (whatever helper builds the shape)
+            n += 1
+            keeps = seen[key] is False
+            run.ob('IM1.imported-knot-vectors-are-stored-unchanged', key, keeps,
+                   'the imported shape does not normalise the knot vectors it is given' if keeps else
+                   'the importer returns a shape created with the default normalize_kv=True and assigns the knot vectors of the file to it: a shape that was exported with '
+                   'un-normalised knot vectors is imported with normalised ones (the formats carry no normalisation flag)', site(fi))
+            continue
         ctor = [a for a in walk_no_nested(fi.node) if isinstance(a, ast.Assign) and isinstance(a.value, ast.Call) and
                 (norm(a.value.func).startswith('shortcuts.generate_') or norm(a.value.func).split('.')[-1] in ('Curve', 'Surface', 'Volume'))]
         kvs = [a for a in walk_no_nested(fi.node) if isinstance(a, ast.Assign) and isinstance(a.targets[0], ast.Attribute) and a.targets[0].attr.startswith('knotvector')]
